@@ -459,8 +459,54 @@ def hookBad (s : State) : Bool :=
   (s.m.is .ended && (s.termHook ^^ s.hookOk)) ||
   (s.termHook && (s.m.is .handle || s.m.is .handleSlow || s.m.is .hook || s.m.is .recvSel))
 
+/-! ### a ranking function: the server's own steps cannot go on for ever
+  Every step that is NOT an action of the environment (client, caller of Shutdown) strictly decreases
+  `rank`: without new input a connection performs at most `rank s` (≤ 275) further steps. Together
+  with `stuck` (nothing but the environment can move, yet not all ended) this is what "does not
+  deadlock, keeps no goroutines" means for the model: after the peer has gone the three goroutines
+  END (within `rank` steps), they do not merely "always have a step". The rank is a sum of per-process
+  progress measures; the only loop of the owner (waitErr → recvCheck) is paid for by the error
+  channel's `closed` flag, which only a completed write (an action involving the client) sets. -/
+
+def MPc.rank : MPc → Nat
+  | .ended => 0 | .wgDone => 1 | .c3 => 2 | .c2 => 3 | .c1 => 4 | .dfr => 5 | .t3 => 6 | .t2 => 7
+  | .t1 => 8 | .waitErr => 100 | .sendSel => 101 | .sendSelNil => 101 | .loadTx => 102
+  | .sendCheck => 103 | .ctxCheck => 104 | .handleSlow => 105 | .handle => 106 | .recvSel => 107
+  | .recvCheck => 108 | .hook => 109
+
+def RPc.rank : RPc → Nat
+  | .ended => 0 | .closeRx => 1 | .t3 => 2 | .t2 => 3 | .t1 => 4 | .recv => 5 | .check => 6
+  | .hand => 7 | .handBad => 7
+
+def WPc.rank : WPc → Nat
+  | .ended => 0 | .t3 => 1 | .t2 => 2 | .t1 => 3 | .errClose => 54 | .errSend => 55 | .io => 56
+  | .sel => 57 | .check => 58 | .closeOk => 109
+
+def rank (s : State) : Nat :=
+  Nat.add (Nat.add s.m.rank s.r.rank) (Nat.add s.w.rank (bif s.errClosed then 50 else 0))
+
+/-- every enabled step that is not the environment's strictly decreases the rank. -/
+def rankOk (p : Params) (s : State) : Bool :=
+  (stepL p s).all (fun e => e.1.isEnv || Nat.blt (rank e.2) (rank s))
+
+/-- nothing the server itself can do is enabled. -/
+def quiet (p : Params) (s : State) : Bool := (stepL p s).all (fun e => e.1.isEnv)
+
+/-- the connection is live (client there, context not cancelled, not closed), the server has nothing
+    left to do by itself, a decodable request is still unanswered — and the server is NOT waiting for
+    the client to take a response (`w = io`) nor for a handler that waits for its context. -/
+def unansweredBad (p : Params) (s : State) : Bool :=
+  quiet p s && !s.cliGone && !s.ctxDone && !s.closed && !(s.fl.is .zero) &&
+  !(s.w.is .io) && !(s.m.is .handleSlow)
+
+/-- live, quiet, an undecodable message has been taken by the owner, and the invalid-message
+    response is neither written nor being written. -/
+def invalidUnansweredBad (p : Params) (s : State) : Bool :=
+  quiet p s && !s.cliGone && !s.ctxDone && !s.closed && s.invProd && !s.invWr && !(s.w.is .io)
+
 def bad (p : Params) (s : State) : Bool :=
-  crashed s || (stuck p s && !waitsOnPipelined s) || misordered s || invalidBad s || hookBad s
+  crashed s || (stuck p s && !waitsOnPipelined s) || misordered s || invalidBad s || hookBad s ||
+  !(rankOk p s) || unansweredBad p s || invalidUnansweredBad p s
 
 /-! ### coding -/
 
